@@ -70,6 +70,9 @@ MarkScans(p, e) ==   \* pending scans learn that key e.k (or every key, for a sw
      IF p[u].on /\ p[u].op = "range" /\ (e.op \in Mutating \/ e.op = "sweep")
      THEN [p[u] EXCEPT !.seenAll = [k \in 1 .. N |->
                IF e.op = "sweep" \/ e.k = k THEN p[u].seenAll[k] \cup {Unstable} ELSE p[u].seenAll[k]]]
+     \* a keyed call in flight learns that a mutating call on its key was invoked meanwhile
+     ELSE IF p[u].on /\ p[u].op \in KeyedOps /\ e.op \in Mutating /\ p[u].a.k = e.k
+          THEN [p[u] EXCEPT !.ovl = TRUE]
      ELSE p[u]]
 
 TInv == /\ Ev.e = "inv"
@@ -86,6 +89,9 @@ TInv == /\ Ev.e = "inv"
                                             /\ pend[x].a.k = i /\ (pend[x].pubbed \/ pend[x].reaped)}}]
                           ELSE <<>>,
               npub |-> 0,                       \* publications on its key by OTHER calls meanwhile
+              \* a mutating call of another thread on its key overlaps with it
+              ovl |-> Ev.op \in KeyedOps /\ \E u \in 1 .. Len(pend) :
+                         u # Ev.t /\ pend[u].on /\ pend[u].op \in Mutating /\ pend[u].a.k = Ev.k,
               pubbed |-> FALSE, reaped |-> FALSE, pre |-> S!NoRec, post |-> S!NoRec]]
         /\ flags' = {}
         /\ UNCHANGED <<kv, now, cfg, klen>>
@@ -166,7 +172,11 @@ Refusal(t, p, r) ==
   \* the two conservative refusals C07 permits, plus what memory pressure and concurrent
   \* rewriting of a persistent extent (C08) allow
   \/ /\ r.tag = "OlderTimestamp"
-     /\ IF p.a.auto \/ p.op \in {"iia", "update_ttl"} THEN p.npub > 0
+     /\ IF p.a.auto \/ p.op \in {"iia", "update_ttl"}
+        \* an automatic call: something was published on the key while it ran, or a mutating call of
+        \* another thread on the key overlapped with it (a timestamp accepted by that call may not have
+        \* reached the version clock when this call drew its own)
+        THEN p.npub > 0 \/ p.ovl
         ELSE \/ \E s \in p.seen : ~ULt(s.ts, T3(p.a.ts))         \* an equal-or-newer version was around
              \* "... when an accepted write or delete with an equal-or-newer timestamp was INVOKED
              \* before the rejection": a call of another thread on the same key that is still in flight
